@@ -670,6 +670,11 @@ def r7b(cx, rec):
             e = e[2]
         if n >= 68 and any((access_path(x) or '') in avail_params(F, hs) for x in (e[2], e[3])):
             bounds = [pb for kind, pb, ops in mirq.panic_sites(hs) if kind == 'bounds']
+            # comparisons made in a closure (`(0..n).any(|i| buf[i + 1] != ID[i])`): the call that receives the closure
+            for c2 in F.children(hs.path):
+                if any(kind == 'bounds' for kind, pb, ops in mirq.panic_sites(F.fns[c2])):
+                    recv = [bb for bb in mirq.real_calls(hs) if any(x[0] == 'closure' and x[1] == c2 for x in walk(hs.expr_call(bb)))]
+                    bounds += recv or [0]
             g = all(pb in hs.only_via_edge((sb, good)) or pb == good for pb in bounds) and bool(bounds)
             rec.site(hs, sb, 'handshake byte comparisons only after available >= 68: %s' % g)
     rec.need(g, 'handshake-compare-unguarded', hs, None, 'Handshake::check indexes the buffer without first requiring 68 available bytes')
